@@ -298,6 +298,16 @@ class Gen:
                 "enable": r.random() < 0.5, "sustain": r.random() < 0.5, "loop": r.random() < 0.5,
                 "ctl_index": self.pick(0, 255, 0), "gain_pct": self.pick(0, 255, 100), "velocity": self.pick(0, 255, 0)}
 
+    def field_text(self, width):
+        """Bytes for a fixed-width text field, as an application makes them from a str: UTF-8 with multi-byte characters, sometimes
+        LONGER than the field (the field holds the first `width` bytes, wherever that cuts)."""
+        r = self.rng
+        target = r.choice([width - 1, width, width + 1, width + 2, width + 3, 2 * width])
+        s = ""
+        while len(s.encode("utf8")) < target:
+            s += r.choice(["a", "Z", " ", "é", "ß", "Ж", "日", "€", "😀", "1"])
+        return s.encode("utf8").rstrip(b"\0")
+
     def sample(self):
         r = self.rng
         fmt = r.choice([1, 2, 4])
@@ -307,6 +317,8 @@ class Gen:
         extra = r.choice([0, 0, 0, 1]) if frame > 1 else 0  # odd tails: "all byte strings as sample data"
         data = bytes(r.randrange(256) for _ in range(nframes * frame + extra))
         name = bytes(r.choice(b"abcXYZ019 _\xff\x80") for _ in range(r.choice([0, 3, 21, 22])))
+        if r.random() < 0.15:
+            name = self.field_text(22)
         name = name.rstrip(b"\0")
         return {"data": data, "format": fmt, "channels": ch, "loop_type": r.choice([0, 1, 2]),
                 "loop_start": self.u32(0), "loop_len": self.u32(0), "volume": self.pick(0, 255, 64), "finetune": self.pick(-128, 127, 100),
@@ -330,6 +342,8 @@ class Gen:
             T = self.next_type(exclude=("MetaModule",) if depth >= 1 else ())
             effect = {"kind": "synth", "sunsynth_version": (2, 1, 2, 1), "module": self.module(T, "synth", depth + 1)}
         iname = bytes(r.choice(b"instrumentNAME 01") for _ in range(r.choice([0, 5, 22]))).rstrip(b"\0")
+        if r.random() < 0.2:
+            iname = self.field_text(22)
         return {
             "samples": {i: self.sample() for i in sorted(slots)},
             "volume_envelope": self.envelope(0, [(0, 0x8000), (8, 0), (0x80, 0), (0x100, 0)]),
